@@ -964,6 +964,31 @@ func init() {
 	}
 }
 
+// degenerateStructCases: see the call site.
+func degenerateStructCases() []RCaseR {
+	hs := func(s string) string { return common.HexS(s) }
+	var out []RCaseR
+	names := append([]string{"", " ", "\x00"}, allFieldNames...)
+	for _, name := range names {
+		for _, op := range []string{"=", "!=", ""} {
+			for _, rhs := range []string{"", "-", "+", " ", "0x", "-0x", "\x00", "--1"} {
+				for _, la := range [][2]string{{"exit", "always"}, {"user", "never"}} {
+					out = append(out, RCaseR{Kind: "struct", Note: "degenerate-struct",
+						Spec: fmt.Sprintf("S;3;%s;%s;%s;;", hs(la[0]), hs(la[1]), fmt.Sprintf("2.%s.%s.%s", hs(name), hs(op), hs(rhs)))})
+				}
+			}
+		}
+	}
+	// inter-field comparisons with empty sides
+	for _, l := range []string{"", "uid", "auid"} {
+		for _, r := range []string{"", "uid", "gid"} {
+			out = append(out, RCaseR{Kind: "struct", Note: "degenerate-struct",
+				Spec: fmt.Sprintf("S;3;%s;%s;%s;;", hs("exit"), hs("always"), fmt.Sprintf("1.%s.%s.%s", hs(l), hs("="), hs(r)))})
+		}
+	}
+	return out
+}
+
 // watchShapeCases: see the call site.
 func watchShapeCases() []RCaseR {
 	var out []RCaseR
@@ -1609,6 +1634,13 @@ func ruleFamily(ctx *Ctx) error {
 	// filters, and the near misses of the shape (other list/action, a syscall, a fourth filter, another operator)
 	for _, c := range watchShapeCases() {
 		run(c, "watch-shape")
+	}
+	// Rule structs with degenerate filter parts, systematically (Build takes any Rule value, not only what
+	// flags.Parse produces): every field name with an empty / sign-only / blank value, and empty names and operators
+	if ctx.Prop == "C13" {
+		for _, c := range degenerateStructCases() {
+			run(c, "degenerate-struct")
+		}
 	}
 	n := ctx.N(6000, 150000)
 	res.Rule = "rule lines built from flag occurrences (every list x action, every field name x every operator with boundary and random values in decimal/hex/octal/negative/name spellings, 0..66 filters, inter-field comparisons, syscall sets by number and name incl. 'all', keys, file watches on real temp files/dirs) plus perturbed lines (stray words, junk around -F/-C values, repeated and mixed flags), hostile wire bytes (each 32-bit header word replaced by boundary values, truncations) and random Rule structs; each goes through flags.Parse -> Build -> ToCommandLine on the real code and on the model, and through the property monitors. Non-trivial = more than one flag occurrence, or hostile bytes/struct; distinct by canonical case."
